@@ -60,6 +60,7 @@ class LThread:
         self.clock = 0.0  # per-thread fake clock (see FakeTime)
         self.notified = False
         self.steps = 0
+        self.traced_calls = 0
         self.thread = threading.Thread(target=self._main, daemon=True, name="coop-" + str(name))
         self.thread._coop_lt = self
         self.thread.start()
@@ -99,13 +100,15 @@ class LThread:
 
     def _globaltrace(self, frame, event, arg):
         if event == "call" and self.sched.trace(frame.f_code):
+            self.traced_calls += 1
             return self._localtrace
         return None
 
     def _localtrace(self, frame, event, arg):
         if event == "line":
             code = frame.f_code
-            self._park("line", (os.path.basename(code.co_filename), frame.f_lineno, code.co_name))
+            self._park("line", (os.path.basename(code.co_filename), frame.f_lineno, code.co_name, frame))
+            self.info = None  # do not keep the frame alive
         return self._localtrace
 
 
@@ -278,6 +281,30 @@ class CoopCondition:
             t.notified = True
 
     notifyAll = notify_all
+
+
+class ThreadingProxy:
+    """Replacement for the ``threading`` module inside a module under test: Lock()/RLock() give cooperative locks."""
+
+    def __init__(self, sched):
+        self._sched = sched
+        self.made = []
+
+    def Lock(self):
+        k = CoopLock(self._sched, "Lock#%d" % len(self.made))
+        self.made.append(k)
+        return k
+
+    def RLock(self):
+        k = CoopLock(self._sched, "RLock#%d" % len(self.made), reentrant=True)
+        self.made.append(k)
+        return k
+
+    def Condition(self, lock=None):
+        return CoopCondition(lock if lock is not None else self.RLock())
+
+    def __getattr__(self, k):
+        return getattr(threading, k)
 
 
 class FakeTime:
